@@ -551,6 +551,11 @@ func runScenario[K comparable](cfg Config, r *hx.Result, ops kindOps[K], sc scen
 			} else {
 				r.Count("reply:well-formed")
 			}
+			if callErr != nil && repeated {
+				// rejecting a reply that names a key or field twice satisfies the property
+				r.Count("reply:repeated-key-or-field rejected")
+				break
+			}
 			if callErr != nil {
 				sig := sigSpuriousErr
 				for _, f := range sc.Doc {
